@@ -32,6 +32,7 @@ struct World {
     base: Option<Instant>,
     timers: HashMap<i64, TKey>,
     owns: HashMap<i64, OwnH>,
+    towns: HashMap<i64, TOwnH>,
     refs: HashMap<i64, Actor<Node>>,
     rets: HashMap<i64, RetH>,
     fwds: HashMap<i64, FwdH>,
@@ -146,6 +147,47 @@ struct ArgTok {
 impl Drop for ArgTok {
     fn drop(&mut self) {
         ev(format!(r#"{{"e":"argdrop","rid":{}}}"#, self.rid));
+    }
+}
+
+// A trait-object actor (actor_of_trait!): only created, initialised and released
+type PingBox = Box<dyn PingT>;
+trait PingT {
+    fn aid(&self) -> i64;
+}
+struct Pinger {
+    vtok: VTok,
+}
+impl PingT for Pinger {
+    fn aid(&self) -> i64 {
+        self.vtok.aid
+    }
+}
+impl Pinger {
+    fn init(cx: CX![PingBox], aid: i64, tok: Tok) -> Option<PingBox> {
+        ev(format!(
+            r#"{{"e":"x","item":{},"now":{},"aid":{},"prep":true}}"#,
+            tok.id(),
+            tj(cx.now()),
+            aid
+        ));
+        tok.ran.set(true);
+        ev(format!(r#"{{"e":"xe","item":{},"some":true}}"#, tok.id()));
+        drop(tok);
+        Some(Box::new(Pinger { vtok: VTok { aid } }))
+    }
+}
+struct TOwnH {
+    oid: i64,
+    aid: i64,
+    own: Option<ActorOwn<PingBox>>,
+}
+impl Drop for TOwnH {
+    fn drop(&mut self) {
+        if let Some(own) = self.own.take() {
+            ev(format!(r#"{{"e":"owndrop","oid":{},"aid":{}}}"#, self.oid, self.aid));
+            drop(own);
+        }
     }
 }
 
@@ -1323,6 +1365,42 @@ fn exec_op(op: &Value, ctx: &mut Ctx) {
                 panic!("harness: kill needs stakker");
             }
         }
+        "tcreate" => {
+            // actor_of_trait!: an actor whose type is a boxed trait object (both arms of the macro)
+            let aid = get_i(op, "aid");
+            let oid = get_i(op, "oid");
+            let init = &op["init"];
+            let tok = Tok::new(init);
+            let parent_aid = match ctx {
+                Ctx::M(n, _) => n.aid,
+                Ctx::P(a, _) => *a,
+                _ => 0,
+            };
+            let notify = mk_notify(aid);
+            let arm = (aid + oid) % 2;
+            let own: ActorOwn<PingBox> = match (arm, &mut *ctx) {
+                (0, Ctx::S(s)) => actor_of_trait!(s, PingBox, Pinger::init(aid, tok), notify),
+                (0, Ctx::M(_, cx)) => actor_of_trait!(cx, PingBox, Pinger::init(aid, tok), notify),
+                (0, Ctx::P(_, cx)) => actor_of_trait!(cx, PingBox, Pinger::init(aid, tok), notify),
+                (_, Ctx::S(s)) => actor_of_trait!(s, PingBox, <Pinger>::init(aid, tok), notify),
+                (_, Ctx::M(_, cx)) => actor_of_trait!(cx, PingBox, <Pinger>::init(aid, tok), notify),
+                (_, Ctx::P(_, cx)) => actor_of_trait!(cx, PingBox, <Pinger>::init(aid, tok), notify),
+                (_, Ctx::D) => panic!("harness: tcreate in drop handler"),
+            };
+            ev(format!(
+                r#"{{"e":"acreate","aid":{},"oid":{},"parent":{},"slab":false,"logid":{},"pnotify":""}}"#,
+                aid,
+                oid,
+                parent_aid,
+                own.id()
+            ));
+            ev(format!(
+                r#"{{"e":"sub","q":"main","item":{},"hr":[],"aid":{},"prep":true}}"#,
+                init["id"].as_i64().unwrap(),
+                aid
+            ));
+            w(|w| w.towns.insert(oid, TOwnH { oid, aid, own: Some(own) }));
+        }
         "dkill" => {
             // kill!(owner, ...): takes another owner and defers a closure that kills through it
             let oid = get_i(op, "oid");
@@ -1349,10 +1427,12 @@ fn exec_op(op: &Value, ctx: &mut Ctx) {
         "owndrop" => {
             let oid = get_i(op, "oid");
             let h = w(|w| w.owns.remove(&oid));
-            if h.is_none() {
+            let th = w(|w| w.towns.remove(&oid));
+            if h.is_none() && th.is_none() {
                 ev(format!(r#"{{"e":"nop","why":"no owner {}"}}"#, oid));
             }
             drop(h);
+            drop(th);
         }
         "ownclone" => {
             // owned(): another owning reference
@@ -1872,6 +1952,12 @@ fn clear_world() {
     keys.sort();
     for k in keys {
         drop(owns.remove(&k));
+    }
+    let mut towns = w(|w| std::mem::take(&mut w.towns));
+    let mut keys: Vec<i64> = towns.keys().cloned().collect();
+    keys.sort();
+    for k in keys {
+        drop(towns.remove(&k));
     }
     let mut rets = w(|w| std::mem::take(&mut w.rets));
     let mut keys: Vec<i64> = rets.keys().cloned().collect();
